@@ -84,7 +84,8 @@ Fixpoint ivs_eqb (a b : list interval) : bool :=
   end.
 
 Inductive case :=
-  | CClf (c : clf_case)
+  | CClf (c : clf_case) (feats : list (list Q * list interval * list Q))
+      (* feats (time series forest only): raw series, a tree's intervals, its _transform row *)
   | CReg (rows : list (list Q * Q))                  (* per instance: tree predictions, predict *)
   | CSlope (ys : list Q) (impl : Q)
   | CFeat (x : list Q) (ivs : list interval) (impl : list Q)
@@ -92,7 +93,9 @@ Inductive case :=
 
 Definition check (c : case) : bool :=
   match c with
-  | CClf cc => clf_ok cc
+  | CClf cc feats =>
+      clf_ok cc &&
+      forallb (fun f => feat_ok (tsf_features (snd (fst f)) (fst (fst f))) (snd f)) feats
   | CReg rows => forallb (fun r => approx (qmean (fst r)) (snd r)) rows
   | CSlope ys v => approx (code_slope ys) v && approx (ols_slope ys) v
   | CFeat x ivs impl => feat_ok (tsf_features ivs x) impl
@@ -102,7 +105,7 @@ Definition check (c : case) : bool :=
 (* what the model says, for replay files *)
 Definition model_says (c : case) :=
   match c with
-  | CClf cc => (classes_of label_leb label_eqb (c_ytrain cc),
+  | CClf cc _ => (classes_of label_leb label_eqb (c_ytrain cc),
                 map (fun i => map Qred (model_row (c_classes cc) (i_mem i))) (c_insts cc),
                 [Qred (accuracy label_eqb (map i_pred (c_insts cc)) (c_ytest cc))])
   | CReg rows => ([], [map (fun r => Qred (qmean (fst r))) rows], [])
